@@ -9,7 +9,16 @@ p.enable(); time.sleep(0.3)
 def frame(stype, system): return struct.pack(">LHBBBBL", 10, 0xFFFF, 0, 0, 0, stype, system)
 bad = 0
 for i in range(40):
-    c = socket.create_connection(("127.0.0.1", port), timeout=1); c.close()     # connect and leave at once
+    t0 = time.time()
+    while True:
+        try:
+            c = socket.create_connection(("127.0.0.1", port), timeout=1); c.close()     # connect and leave at once
+            break
+        except OSError:
+            # the endpoint listens again a moment after it reported the end of the previous connection
+            if time.time() - t0 > 5:
+                print("round", i, "endpoint does not listen"); os._exit(1)
+            time.sleep(0.01)
     ok = False
     t0 = time.time()
     while time.time() - t0 < 5 and not ok:
